@@ -49,6 +49,11 @@ func runC06(c *engine.Ctx, tier string) {
 		}},
 		Why: "RollbackIndex is the index the configuration reflected when the change was validated (or, for a rollback, the one captured by the rolled-back change)"})
 	captureLoop(c)
+	// a rollback reaches every target of the change it undoes: one rollback proposal per target, recorded in the transaction
+	saved := c.Al
+	c.Al = transactionAliases(c.P)
+	onePerTarget(c, "C06.7", "@RBTCHG.Change.Values")
+	c.Al = saved
 	// what the commit of a rollback merges is the captured prior state (and of a change, the change)
 	commitSourceAs(c, "C06.3d")
 	// (4) commit
